@@ -281,6 +281,11 @@ def fitsButNotFinal (h : Hdr) (mtu : Nat) : Bool :=
   | some ml => ml + h.len ≤ mtu && !h.fin
   | none => false
 
+/-- "CONTINUE / ENDING segment without an SDU in progress": not a beginning segment, not a stand-alone
+acknowledgement, and nothing is being reassembled -/
+def orphanSegment (r : RecvWindow) (h : Hdr) : Bool :=
+  h.getMsgLen.isNone && r.remMsgLen == 0 && !h.isStandaloneAck
+
 /-- the mutating tail of `RecvWindow::accept_incoming` -/
 def RecvWindow.commit (r : RecvWindow) (h : Hdr) (pfx payload : List Nat) (rem now : Nat) :
     Except Fail RecvWindow :=
@@ -304,6 +309,7 @@ def RecvWindow.acceptIncoming (r : RecvWindow) (h : Hdr) (payload : List Nat) (m
   else if r.level == 0 then .error .invalidData                            -- window overrun (fix)
   else if h.getMsgLen.isSome && r.remMsgLen > 0 then .error .invalidData   -- new SDU inside an SDU (fix)
   else if fitsButNotFinal h mtu then .error .invalidData
+  else if orphanSegment r h then .error .invalidData                       -- continue / ending without an SDU (fix)
   else if r.startRem h.getMsgLen < payload.length then .error .invalidData
   else if !h.fin && !payload.isEmpty && r.startRem h.getMsgLen - payload.length == 0 then
     .error .invalidData                                                    -- length reached, not final (fix)
@@ -354,12 +360,16 @@ def initialWindowSize (mtu : Nat) : Except Fail Nat :=
 
 def clamp (x lo hi : Nat) : Nat := if x < lo then lo else if x > hi then hi else x
 
-/-- `Session::setup` (fixed tree: both windows restart from scratch) -/
-def Session.setup (s : Session) (version mtu windowSize : Nat) : Session :=
+/-- `Session::setup` (fixed tree: both windows restart from scratch; at the initiator the peer's
+handshake response counts as the received, not yet acknowledged segment number 0 - it takes one
+slot of the receive window and starts the acknowledgement timer: `level = window_size - 1`
+(`saturating_sub`), `ack_level = 1`, `ack_seq = 0`, `received_at = Instant::now()`) -/
+def Session.setup (s : Session) (version mtu windowSize now : Nat) : Session :=
   { s with
     established := true, version := version, mtu := mtu, windowSize := windowSize,
     handshakePending := !s.initiator,
-    recv := { level := windowSize, ackSeq := if s.initiator then 0 else 255 },
+    recv := if s.initiator then { level := windowSize - 1, ackLevel := 1, ackSeq := 0, receivedAt := some now }
+            else { level := windowSize, ackSeq := 255 },
     send := { windowSize := windowSize, level := windowSize } }
 
 /-- the MTU selection of `process_rx_handshake_req` (before the GATT header is taken off) -/
@@ -371,8 +381,8 @@ def Session.selectMtu (s : Session) (gattMtu : Option Nat) (reqMtu : Nat) : Nat 
   else clamp reqMtu minMtu maxMtu
 
 /-- `Session::process_rx_handshake_req` -/
-def Session.processRxHandshakeReq (s : Session) (gattMtu : Option Nat) (h : Hdr) (payload : List Nat) :
-    Except Fail Session :=
+def Session.processRxHandshakeReq (s : Session) (gattMtu : Option Nat) (h : Hdr) (payload : List Nat)
+    (now : Nat) : Except Fail Session :=
   if !checkHandshakeIntegrity h then .error .invalidData
   else
     match decodeReq payload with
@@ -388,10 +398,11 @@ def Session.processRxHandshakeReq (s : Session) (gattMtu : Option Nat) (h : Hdr)
         | .ok iw =>
           let ws := min req.windowSize iw
           if ws = 0 then .error .invalidData      -- fix: a zero window cannot carry the response
-          else .ok (s.setup version mtu ws)
+          else .ok (s.setup version mtu ws now)
 
 /-- `Session::process_rx_handshake_resp` -/
-def Session.processRxHandshakeResp (s : Session) (h : Hdr) (payload : List Nat) : Except Fail Session :=
+def Session.processRxHandshakeResp (s : Session) (h : Hdr) (payload : List Nat) (now : Nat) :
+    Except Fail Session :=
   if !checkHandshakeIntegrity h then .error .invalidData
   else
     match decodeResp payload with
@@ -400,7 +411,7 @@ def Session.processRxHandshakeResp (s : Session) (h : Hdr) (payload : List Nat) 
       -- fix: the peer's choice is validated
       if resp.mtu < minMtu - gattHeaderSize || resp.mtu > maxMtu - gattHeaderSize || resp.windowSize = 0 then
         .error .invalidData
-      else .ok (s.setup resp.version resp.mtu resp.windowSize)
+      else .ok (s.setup resp.version resp.mtu resp.windowSize now)
 
 /-- `Session::process_rx_data` (fixed tree: the acknowledgement is validated before anything is stored) -/
 def Session.processRxData (s : Session) (h : Hdr) (payload : List Nat) (now : Nat) : Except Fail Session :=
@@ -418,8 +429,8 @@ def Session.processRxData (s : Session) (h : Hdr) (payload : List Nat) (now : Na
 def Session.processRxSeg (s : Session) (gattMtu : Option Nat) (h : Hdr) (payload : List Nat) (now : Nat) :
     Except Fail Session :=
   if h.hs then
-    if s.initiator then s.processRxHandshakeResp h payload
-    else s.processRxHandshakeReq gattMtu h payload
+    if s.initiator then s.processRxHandshakeResp h payload now
+    else s.processRxHandshakeReq gattMtu h payload now
   else s.processRxData h payload now
 
 /-- `Session::process_rx` on raw bytes -/
